@@ -7,6 +7,7 @@ the public `add_plugin` API.
 
 from __future__ import annotations
 
+import contextlib
 import copy
 from dataclasses import dataclass, field
 from typing import Any, Callable
@@ -442,3 +443,48 @@ def exception_name(exc: BaseException) -> str:
     if isinstance(exc, OptimizationAborted):
         return f"OptimizationAborted({exc.exit_code.name})"
     return type(exc).__name__
+
+
+# ---------------------------------------------------------------------------- SciPy entry-point seam
+
+@contextlib.contextmanager
+def scipy_entry_points(minimize: Any = None, differential_evolution: Any = None) -> Any:
+    """Replace the SciPy entry points the optimizer plug-in calls by drivers that are always called with keywords.
+
+    The seam is the public SciPy API, reached however the plug-in refers to it: names bound in the plug-in module
+    (`from scipy.optimize import minimize`) and the attributes of `scipy.optimize` itself.  Positional arguments are
+    mapped to their parameter names with the signature of the real function, so a driver sees the same keywords whatever
+    call style the plug-in uses.  Yields {"minimize": real function, "differential_evolution": real function}.
+    """
+    import inspect
+
+    import scipy.optimize as so
+
+    from ropt.plugins.optimizer import scipy as plugin
+
+    real = {"minimize": so.minimize, "differential_evolution": so.differential_evolution}
+    drivers = {"minimize": minimize, "differential_evolution": differential_evolution}
+
+    def adapt(name: str) -> Any:
+        signature = inspect.signature(real[name])
+
+        def entry(*args: Any, **kwargs: Any) -> Any:
+            bound = signature.bind_partial(*args, **kwargs)
+            return drivers[name](**bound.arguments)
+
+        return entry
+
+    saved: list[tuple[Any, str, Any]] = []
+    try:
+        for name, driver in drivers.items():
+            if driver is None:
+                continue
+            entry = adapt(name)
+            for holder in (plugin, so):
+                if hasattr(holder, name):
+                    saved.append((holder, name, getattr(holder, name)))
+                    setattr(holder, name, entry)
+        yield real
+    finally:
+        for holder, name, original in reversed(saved):
+            setattr(holder, name, original)
